@@ -1,0 +1,9 @@
+//go:build verif
+
+package shard
+
+// VerifHandleNewEpoch runs the new-epoch event handler synchronously
+// (verification harness only).
+func (s *Shard) VerifHandleNewEpoch(epoch uint64) {
+	s.setEpochEventHandler(newEpoch{epoch: epoch})
+}
